@@ -44,6 +44,7 @@ func c14Plan(o *cli.Opts, cliMode bool) []c14Cycle {
 		add(c14Cycle{Name: "cli/ports-up", Timing: "ports-up"})
 		add(c14Cycle{Name: "cli/inflight-1-afterDecode", Timing: "inflight", K: 1, Delays: "prove.afterDecode=700:200"})
 		add(c14Cycle{Name: "cli/inflight-3-afterProve-mixed", Timing: "inflight", K: 3, Mix: true, Delays: "prove.afterProve=700:300,job.stopRequested=40"})
+		add(c14Cycle{Name: "cli/inflight-2-before-body-read", Timing: "inflight", K: 2, Delays: "prove.enter=900:300"})
 		add(c14Cycle{Name: "cli/inflight-2-repeated-sigint", Timing: "inflight", K: 2, Delays: "prove.afterDecode=1500:300", Resignal: 2})
 		add(c14Cycle{Name: "cli/long-hold", Timing: "inflight", K: 2, Delays: fmt.Sprintf("prove.afterDecode=%d", o.Pick(8000, 35000)), LongHoldS: o.Pick(8, 35)})
 		if o.Thorough() {
@@ -66,6 +67,9 @@ func c14Plan(o *cli.Opts, cliMode bool) []c14Cycle {
 	for i := 0; i < n; i++ {
 		add(c14Cycle{Name: fmt.Sprintf("inflight/%d", i), Timing: "inflight", K: []int{1, 2, 4, 1, 3}[i%5], Mix: i%3 == 1,
 			Delays: fmt.Sprintf("%s=%d:%d,job.stopRequested=%d", stages[i%3], 150+50*(i%7), 150, (i%2)*50)})
+	}
+	for i := 0; i < o.Pick(2, 12); i++ { // accepted, but the handler has not read the body yet when the stop arrives
+		add(c14Cycle{Name: fmt.Sprintf("inflight-before-body-read/%d", i), Timing: "inflight", K: 1 + i%3, Mix: i%2 == 1, Delays: fmt.Sprintf("prove.enter=%d:200,job.stopRequested=%d", 400+100*i, (i%2)*50)})
 	}
 	add(c14Cycle{Name: "after-completion/0", Timing: "after-completion", K: 2})
 	add(c14Cycle{Name: "after-completion/1", Timing: "after-completion", K: 1, Delays: "job.stopRequested=50"})
